@@ -181,6 +181,15 @@ func layoutRecord(rng *rand.Rand, code int, codeTag string, fields []fieldSpec, 
 	}); p {
 		rec["enc"] = M{"t": "panic", "msg": msg}
 	}
+	// the same value handed over by pointer encodes to the same bytes
+	rec["encptr"] = M{"t": "err"}
+	if p, msg := guard(func() {
+		if b, err := codec.Marshal(msgv.Addr().Interface()); err == nil {
+			rec["encptr"] = M{"t": "ok", "b": ints(b)}
+		}
+	}); p {
+		rec["encptr"] = M{"t": "panic", "msg": msg}
+	}
 	rec["dec"], rec["aliased"], rec["decwrong"] = M{"t": "none"}, false, M{"t": "none"}
 	if bytes == nil {
 		// still try decoding a specification-independent all-zero message with the right header: no panic
